@@ -51,7 +51,16 @@ def runRW (r : Report) (s : Section) : Report := Id.run do
   let mut rw := made.getD (RW.new size iv false t0)
   let ign := rw.ignoreCurrent
   r := r.addCover s!"rw-new-options-{min iopts 2}"
-  if iv = 0 then return r.mismatch s.idx 0 "interval>=1" (joinSp s.cfg)
+  if iv = 0 then
+    -- `interval = 0` (outside the property: interval ≥ 1): `span()` divides by zero, every Add / Reduce panics (the
+    -- deferred unlock runs, so the next call panics the same way instead of hanging); nothing is ever stored
+    r := r.addCover "rw-interval-zero-panics"
+    for l in s.lines do
+      r := { r with ops := r.ops + 1 }
+      match l.op with
+      | ["st"] => if joinSp l.obs ≠ s!"0 {t0}" then r := r.mismatch s.idx l.idx s!"0 {t0}" (joinSp l.obs)
+      | _ => if l.obs.head? ≠ some "PANIC" then r := r.mismatch s.idx l.idx "PANIC" (joinSp l.obs)
+    return r
   for l in s.lines do
     r := { r with ops := r.ops + 1 }
     match l.op with
